@@ -179,7 +179,8 @@ theorem scanFinishTagName_sim (F : Frame inpS inpW δ) (hops : OpsSim env.ops in
 /-- **All tag scanner actions.** -/
 theorem scanAct_sim (F : Frame inpS inpW δ) (hops : OpsSim env.ops inpS inpW δ K) (a : ActName)
     {ab ab' : Ab} (habs : absAct a ab = some ab') {cs cw : Common} {ss sw : ScanRegs} {xs xw : Ctx κ}
-    (h : ScanPre δ K ab cs cw ss sw xs xw) (hin : cs.nextPos ≤ inpS.length ∨ Closed inpS inpW δ) :
+    (h : ScanPre δ K ab cs cw ss sw xs xw)
+    (hin : readsInp a = true → (cs.nextPos ≤ inpS.length ∨ Closed inpS inpW δ)) :
     ActSim δ K ab' (qRequired a) (scanAct env a inpS cs ss xs) (scanAct env a inpW cw sw xw) := by
   cases a <;> simp only [absAct] at habs <;> simp only [scanAct]
   case createStartTag =>
@@ -217,7 +218,7 @@ theorem scanAct_sim (F : Frame inpS inpW δ) (hops : OpsSim env.ops inpS inpW δ
       obtain ⟨p1, p2, p3⟩ := h.pos hP
       have hget : inpW[cw.pos]? = inpS[cs.pos]? := by
         rw [p1]; apply F.get'
-        rcases hin with hin | hin
+        rcases hin rfl with hin | hin
         · left; omega
         · right; exact hin
       rw [hget]
